@@ -309,4 +309,63 @@ def stepH (s : SpecH) (st : StateH) (pending : Option V) (h : Heap) : Heap × St
           (h9, { stride := some { stride1 with to := some { node := "error", bs := some b } }, err := err })
         else (h7, { stride := some stride1, err := err })
 
+
+/-! ## `Spec.Walk` over the heap -/
+
+structure WalkedH where
+  strides   : List StrideH
+  remaining : List V
+  stopped   : StopReason
+
+def WalkedH.abs (h : Heap) (w : WalkedH) : Walked :=
+  { strides := w.strides.map (StrideH.abs h), remaining := w.remaining, stopped := w.stopped }
+
+/-- one iteration of `Spec.Walk` without the bookkeeping -/
+def walkStrideH (s : SpecH) (st : StateH) (pending : Option V) (h : Heap) : Heap × StrideH :=
+  match stepH s st pending h with
+  | (h1, out) =>
+    -- stride == nil: stride = NewStride(); stride.From = st.Copy()
+    let (h2, stride) : Heap × StrideH :=
+      match out.stride with
+      | some x => (h1, x)
+      | none =>
+        let (hh, fa) := copyH h1 st.bs
+        (hh, { frm := { node := st.node, bs := some fa }, to := none, consumed := none, emitted := [] })
+    match out.err with
+    | none => (h2, stride)
+    | some e =>
+      if st.node == "error" then (h2, stride)
+      else
+        -- st.Bs.Copy().Extendm("error", …, "lastNode", …, "lastBindings", st.Bs.Copy())
+        let (h3, b) := copyH h2 st.bs
+        let h4 := writeH (writeH (writeH h3 b "error" (.str (errText s.name e)))
+                              b "lastNode" (.str st.node))
+                        b "lastBindings" (.obj (copyB (content h3 st.bs)))
+        (h4, { stride with to := some { node := "error", bs := some b } })
+
+/-- the loop of `Spec.Walk`; breakpoints read the state -/
+def walkLoopH (s : SpecH) (bp : State → Bool) :
+    Nat → StateH → List V → List StrideH → Heap → Heap × WalkedH
+  | 0, _, pendings, acc, h => (h, { strides := acc.reverse, remaining := pendings, stopped := .limited })
+  | i+1, st, pendings, acc, h =>
+    if bp (st.abs h) then (h, { strides := acc.reverse, remaining := pendings, stopped := .breakpoint }) else
+    match walkStrideH s st (pendingOf pendings) h with
+    | (h1, stride) =>
+      let pendings' := if stride.consumed.isSome then pendings.drop 1 else pendings
+      match stride.to with
+      | none =>
+        if pendings'.isEmpty then (h1, { strides := (stride :: acc).reverse, remaining := [], stopped := .done })
+        else if stride.consumed.isNone then (h1, { strides := (stride :: acc).reverse, remaining := [], stopped := .done })
+        else walkLoopH s bp i st pendings' (stride :: acc) h1
+      | some to =>
+        -- st = stride.To.Copy()
+        match copyH h1 to.bs with
+        | (h2, a) => walkLoopH s bp i { node := to.node, bs := some a } pendings' (stride :: acc) h2
+
+/-- `Spec.Walk` -/
+def walkH (s : SpecH) (st : StateH) (msgs : List V) (limit : Option Int) (bp : State → Bool) (h : Heap) :
+    Heap × WalkedH :=
+  let l : Int := match limit with | none => defaultLimit | some l => l
+  walkLoopH s bp l.toNat st msgs [] h
+
 end Own
